@@ -119,6 +119,10 @@ type RecConn struct {
 	Closes    atomic.Int64
 	// Yield is called (if set) before Read returns data, to widen interleavings.
 	Yield func(point string)
+	// DataWithDeadline: every second Read that delivers bytes reports them together with the deadline error (a
+	// fill-the-buffer-until-the-deadline transport; io.Reader allows n > 0 with a non-nil error).
+	DataWithDeadline bool
+	dwd              atomic.Int64
 }
 
 type memAddr string
@@ -141,6 +145,9 @@ func (c *RecConn) EventsCopy() []ConnEvent {
 
 func (c *RecConn) Read(p []byte) (int, error) {
 	n, err := c.Conn.Read(p)
+	if c.DataWithDeadline && n > 0 && err == nil && c.dwd.Add(1)%2 == 0 {
+		err = errDeadline
+	}
 	if n > 0 || (err != nil && !errors.Is(err, errDeadline)) {
 		c.log("read", n, err)
 	}
@@ -192,8 +199,10 @@ type MemListener struct {
 	Conns []*RecConn
 	// ConnYield, when set before Dial, is installed as Yield on every new connection.
 	ConnYield func(point string)
-	Closes    atomic.Int64
-	Accepts   atomic.Int64
+	// DataWithDeadline, when set before Dial, is copied to every new connection.
+	DataWithDeadline bool
+	Closes           atomic.Int64
+	Accepts          atomic.Int64
 }
 
 // NewMemListener creates a listener.
@@ -234,7 +243,7 @@ func (l *MemListener) Dial(timeout time.Duration) (net.Conn, *RecConn, error) {
 	cli, srv := net.Pipe()
 	l.mu.Lock()
 	id := len(l.Conns)
-	rc := &RecConn{Conn: srv, ID: id, remote: memAddr(fmt.Sprintf("client-%d", id)), clk: l.Clk, Yield: l.ConnYield}
+	rc := &RecConn{Conn: srv, ID: id, remote: memAddr(fmt.Sprintf("client-%d", id)), clk: l.Clk, Yield: l.ConnYield, DataWithDeadline: l.DataWithDeadline}
 	l.Conns = append(l.Conns, rc)
 	l.mu.Unlock()
 	select {
